@@ -3,7 +3,9 @@ import re
 from lib import *
 
 PROP = "C17"
-PAR_OK = True
+# concurrent pass of the runner (several cases at a time in one process, each with its own rearranger value): a sample
+# is enough here, the "shared" stream below gives ONE rearranger value to several goroutines
+PAR_OK = lambda c: (c.get("meta") or {}).get("src") in ("random", "multifurcating", "sequence")
 LEVEL = "proof"
 RULE = ("binary trees on 4..12 tips (thorough: up to 24), unrooted (root of degree 3) and rooted (root of degree 2, with 0, 1 or 2 "
         "inner root children), the parent slot of every inner node at a random position of its neighbour array (as after earlier "
@@ -116,13 +118,14 @@ def gen(rng, tier):
             base = g.decorate(sh, lenmode="all", supmode="all")
             k = n_inner_nonroot(base)
             combos = list(product(range(3), repeat=k))
-            if len(combos) > 81:
-                combos = rng.sample(combos, 81)
+            cap = 81 if tier == "thorough" else 12
+            if len(combos) > cap:
+                combos = rng.sample(combos, cap)
             for pos in combos:
                 t = sx_to_tree(parse_sexp(tree_sx(base)))
                 set_ups(t, pos)
                 add(t, "small")
-    n = {"quick": 220, "thorough": 5000, "search": 400}[tier]
+    n = {"quick": 120, "thorough": 5000, "search": 400}[tier]
     for _ in range(n):
         ntips = rng.randint(4, 12 if tier != "thorough" else 24)
         rooted = rng.random() < 0.45
@@ -131,7 +134,7 @@ def gen(rng, tier):
                        inner_names=rng.random() < 0.3, comments=rng.random() < 0.3, up_random=rng.random() < 0.85)
         add(t, "random")
     # outside the property: multifurcations (branches with an end of degree > 3 get no proposal)
-    for _ in range({"quick": 40, "thorough": 800, "search": 60}[tier]):
+    for _ in range({"quick": 25, "thorough": 800, "search": 60}[tier]):
         t = g.tree(lo=5, hi=12, maxdeg=rng.choice([3, 4, 5]), rooted=rng.random() < 0.3,
                    lenmode=rng.choice(["all", "mixed"]), supmode="mixed", inner_names=rng.random() < 0.2,
                    comments=rng.random() < 0.2, up_random=rng.random() < 0.8)
@@ -153,7 +156,7 @@ def gen(rng, tier):
                     "meta": {"src": src, "ntrees": len(ts), "ntips": max(m["ntips"] for m in metas),
                              "rooted": any(m["rooted"] for m in metas),
                              "root_inner_kids_seq": [m["root_inner_kids"] for m in metas]}})
-    nseq = {"quick": 70, "thorough": 1200, "search": 150}[tier]
+    nseq = {"quick": 40, "thorough": 1200, "search": 150}[tier]
     for i in range(nseq):
         style = i % 5
         if style == 0:      # small then large
@@ -215,7 +218,7 @@ def gen(rng, tier):
         m["ops"] = ops or ""
         m["collect"] = "" if collect is None else ("twice" if len(collect) > K else ("order" if list(collect) == sorted(collect) else "shuffled"))
         out.append({"sx": sx(d), "meta": m})
-    nops = {"quick": 14, "thorough": 300, "search": 40}[tier]
+    nops = {"quick": 10, "thorough": 300, "search": 40}[tier]
     for i in range(nops):
         t = rnd_tree(rng.randint(4, 11))
         for ops in rng.sample(OPS[:-1], 3):
@@ -247,7 +250,11 @@ def extra(tier, seed, st):
     def tree_for_cli(ntips, rooted):
         # parent slot first, no comments / names on inner nodes: the structure the Newick parser builds
         sh = binary_shape(rng, ["t%d" % i for i in range(ntips)], 2 if rooted else 3)
-        return g.decorate(sh, lenmode="all", supmode="all", inner_names=False, comments=False, up_random=False)
+        t = g.decorate(sh, lenmode="all", supmode="all", inner_names=False, comments=False, up_random=False)
+        for x in preorder(t):
+            for e, _ in kids(x):
+                e["pv"] = None          # lib.newick does not write p-values
+        return t
     sizes = [(4, False), (5, True), (8, False), (12, True), (rng.randint(16, 24), False), (rng.randint(16, 24), True),
              (rng.randint(60, 70), False)]
     if tier != "quick":
